@@ -85,14 +85,15 @@ def metrics(M, F):
 
 
 def _work(arg):
-    label, constrained = arg
+    label, constrained, reassigned = arg
     out = []
+    shown = label + ("; metric attribute reassigned after construction" if reassigned else "")
 
     def ob(oid, st, secs=0.0):
         status, backend, detail, wit = st
-        out.append((f"generic-systems/{'DenseConstrained' if constrained else 'Euclidean'}[{label}]/{oid}",
+        out.append((f"generic-systems/{'DenseConstrained' if constrained else 'Euclidean'}[{shown}]/{oid}",
                     {"discharged": core.DISCHARGED, "failed": core.FAILED, "unknown": core.UNKNOWN}[status], backend, secs, detail,
-                    None if wit is None else dict(wit, metric=label, constrained=constrained, obligation=oid)))
+                    None if wit is None else dict(wit, metric=label, constrained=constrained, reassigned=reassigned, obligation=oid)))
 
     def attempt(oid, fn):
         t0 = time.time()
@@ -142,6 +143,11 @@ def _work(arg):
         F = c10_generic.SymbolicFactory(M)
         try:
             marg, Mp = metrics(M, F)[label]()
+            marg0 = marg
+            if reassigned:
+                # the system is constructed with ANOTHER positive definite metric first; the metric adapters (and users) then assign system.metric,
+                # and every method must follow the metric attribute as it is when the method is called
+                marg0 = F.posdef("a0", "n")
             qb, pb, zb, gb = Base("q", n, ncalg.ONE), Base("p", n, ncalg.ONE), Base("z", n, ncalg.ONE), Base("g", n, ncalg.ONE)
             q, p, z = (NCArr(Poly.atom(b), 1) for b in (qb, pb, zb))
             g = NCArr(Poly.atom(gb), 1)
@@ -151,10 +157,12 @@ def _work(arg):
             def nld(x):
                 raise Undecided("neg_log_dens value is not needed by these obligations")
             if constrained:
-                system = S.DenseConstrainedEuclideanMetricSystem(nld, lambda x: NCArr(Poly.atom(cb), 1), metric=marg, grad_neg_log_dens=lambda x: g,
+                system = S.DenseConstrainedEuclideanMetricSystem(nld, lambda x: NCArr(Poly.atom(cb), 1), metric=marg0, grad_neg_log_dens=lambda x: g,
                                                                  jacob_constr=lambda x: J, mhp_constr=lambda x: None)
             else:
-                system = S.EuclideanMetricSystem(nld, metric=marg, grad_neg_log_dens=lambda x: g)
+                system = S.EuclideanMetricSystem(nld, metric=marg0, grad_neg_log_dens=lambda x: g)
+            if reassigned:
+                system.metric = marg
             t, s_ = Scal(sp.Symbol("t", positive=True)), Scal(-sp.Symbol("s", positive=True))  # a forward and a backward time
 
             def state():
@@ -246,7 +254,10 @@ def run_generic_systems(run, keep=None, procs=16):
     with ncalg.shimmed(M):
         ncalg.reset()
         labels = list(metrics(M, c10_generic.SymbolicFactory(M)))
-    tasks = [(lab, con) for lab in labels for con in (False, True) if not (con and lab.startswith("default"))]
+    tasks = [(lab, con, False) for lab in labels for con in (False, True) if not (con and lab.startswith("default"))]
+    # the metric attribute is public and assigned by the metric adapters at the end of warm-up: same obligations on a system whose metric was assigned
+    # after construction (for the variants whose constructor argument already is a matrix object)
+    tasks += [(lab, con, True) for lab in labels for con in (False, True) if "contract stub" in lab or "positive scaled" in lab or "low-rank" in lab]
     with mp.get_context("fork").Pool(min(procs, len(tasks))) as pool:
         results = pool.map(_work, tasks, chunksize=1)
     nobs = 0
